@@ -129,50 +129,89 @@ theorem concat_law_fails_unrepaired :
 
 /-! ## raw fields are the exact sub-slices of the input -/
 
-/-- `full` is the element that `readTLV` finds at some offset of `whole` -/
-def ElemAt (d : Dialect) (whole : Bytes) (e : Elem) : Prop :=
-  ∃ pre post, whole = pre ++ e.full ++ post ∧ readTLV d (e.full ++ post) = .ok (e, post)
+/-- the `version` field of `tbsCertificate` (`optional,explicit,default:0,tag:0`), as regenerated -/
+def versionFP : FP := { optional := true, explicit := true, dflt := some 0, tag := some 0 }
 
-/-- **raw_slices.** For every certificate the envelope decoder accepts (strictly or lax, any dialect): `Raw` is the
-whole outer element; `RawTBSCertificate` is the first element of its content; `RawIssuer`, `RawSubject` and
-`RawSubjectPublicKeyInfo` are elements found by `readTLV` inside the TBS content (the positions of the fourth,
-sixth and seventh field). Each is `bs.extract a b` for the offsets of that element — header and declared
-length, nothing more, nothing less. -/
-theorem raw_slices (d : Dialect) (m : Mode) (bs : Bytes) (cert : AVal) (rest : Bytes)
+/-- **raw_slices.** For every certificate the envelope decoder accepts (`strict` or `lax`, any dialect):
+
+* `Raw` is the whole outer element `readTLV` finds at the start of the input (header ++ content, `bs = Raw ++ rest`);
+* `RawTBSCertificate` is the **first** element of that content;
+* inside the TBS content, after the octets the optional `version` field consumed (`r0` is what it left), `readTLV` finds six
+  consecutive elements — serial, signature algorithm, issuer, validity, subject, SPKI — and `RawIssuer`, `RawSubject`,
+  `RawSubjectPublicKeyInfo` are exactly the **third, fifth and sixth** of them.
+
+`readTLV` is a function, so each raw field is pinned to one position: it is `bs.extract a b` for the offsets of that element. -/
+theorem raw_slices (d : Dialect) (m : Mode) (hm : m.isCanon = false) (bs : Bytes) (cert : AVal) (rest : Bytes)
     (h : parseField d m Gen.ty_certificate {} bs = .ok (cert, rest)) :
-    ∃ outer tbs eIssuer eSubject eSpki,
-      readTLV (d.forMode m) bs = .ok (outer, rest) ∧ (rawFields cert).raw = outer.full ∧
-      readTLV (d.forMode m) outer.content = .ok (tbs, outer.content.drop tbs.full.length) ∧ (rawFields cert).tbs = tbs.full ∧
-      ElemAt (d.forMode m) tbs.content eIssuer ∧ (rawFields cert).issuer = eIssuer.full ∧
-      ElemAt (d.forMode m) tbs.content eSubject ∧ (rawFields cert).subject = eSubject.full ∧
-      ElemAt (d.forMode m) tbs.content eSpki ∧ (rawFields cert).spki = eSpki.full := by
-  have plain : ∀ t : ATy, t.isAny = false → PlainField {} t := fun t ht => ⟨rfl, rfl, ht⟩
-  obtain ⟨outer, hro, hraw⟩ := plainField_readTLV d m _ _ _ _ _ (plain _ rfl) h
-  simp only [Gen.ty_certificate, RawOf] at hraw
+    ∃ outer tbs hdrO hdrT,
+      readTLV d bs = .ok (outer, rest) ∧ bs = outer.full ++ rest ∧ outer.full = hdrO ++ outer.content ∧
+      (rawFields cert).raw = outer.full ∧
+      (∃ after, readTLV d outer.content = .ok (tbs, after)) ∧ tbs.full = hdrT ++ tbs.content ∧
+      (rawFields cert).tbs = tbs.full ∧
+      ∃ vver r0 serial alg issuer validity subject spki post,
+        parseField d m .int64 versionFP tbs.content = .ok (vver, r0) ∧
+        ElemsAt d r0 [serial, alg, issuer, validity, subject, spki] post ∧
+        (rawFields cert).issuer = issuer.full ∧ (rawFields cert).subject = subject.full ∧ (rawFields cert).spki = spki.full := by
+  have hd : d.forMode m = d := forMode_of_notCanon d m hm
+  have hu : ∀ raw, m.under raw = m := by
+    intro raw; cases m <;> first | rfl | (cases raw <;> rfl) | cases hm
+  obtain ⟨outer, hro, hraw⟩ := plainField_readTLV d m _ _ _ _ _ ⟨rfl, rfl, rfl⟩ h
+  rw [hd] at hro
+  simp only [Gen.ty_certificate, RawOf, hu] at hraw
   obtain ⟨vs, left, hfs, rfl⟩ := hraw
-  -- first field: the TBS
-  obtain ⟨vtbs, bs', vs', h1, _, rfl⟩ := parseFields_cons d m _ _ _ _ _ _ hfs
-  obtain ⟨tbs, hrt, hrawt⟩ := plainField_readTLV d m _ _ _ _ _ (plain _ rfl) h1
-  simp only [Gen.ty_tbsCertificate, RawOf] at hrawt
+  obtain ⟨hdrO, hfullO, _, _⟩ := readTLV_full d _ _ _ hro
+  -- first field of the certificate: the TBS
+  obtain ⟨tbs, after, vtbs, vs', hrt, hrawt, _, rfl⟩ := plain_step d m _ _ _ _ _ rfl hfs
+  rw [hd] at hrt
+  simp only [Gen.ty_tbsCertificate, RawOf, hu] at hrawt
   obtain ⟨tvs, tleft, htfs, rfl⟩ := hrawt
-  have hsplit := readTLV_split _ _ _ _ hrt
-  have hdrop : bs' = outer.content.drop tbs.full.length := by
-    rw [hsplit]; simp
-  -- the three raw fields inside the TBS
-  obtain ⟨v3, pre3, post3, e3, hv3, hb3, hr3, hraw3⟩ := parseFields_slices d m _ _ _ _ htfs 3 {} .rawValue rfl (plain _ rfl)
-  obtain ⟨v5, pre5, post5, e5, hv5, hb5, hr5, hraw5⟩ := parseFields_slices d m _ _ _ _ htfs 5 {} .rawValue rfl (plain _ rfl)
-  obtain ⟨v6, pre6, post6, e6, hv6, hb6, hr6, hraw6⟩ := parseFields_slices d m _ _ _ _ htfs 6 {} Gen.ty_publicKeyInfo rfl (plain _ rfl)
-  simp only [RawOf] at hraw3 hraw5
-  simp only [Gen.ty_publicKeyInfo, RawOf] at hraw6
-  obtain ⟨svs, sleft, _, hv6eq⟩ := hraw6
-  refine ⟨outer, tbs, e3, e5, e6, hro, rfl, hdrop ▸ hrt, ?_, ⟨pre3, post3, hb3, hr3⟩, ?_, ⟨pre5, post5, hb5, hr5⟩, ?_, ⟨pre6, post6, hb6, hr6⟩, ?_⟩
+  obtain ⟨hdrT, hfullT, _, _⟩ := readTLV_full d _ _ _ hrt
+  -- the version field, then six plain fields
+  obtain ⟨vver, r0, tv1, hver, h1, rfl⟩ := parseFields_cons d m _ _ _ _ _ _ htfs
+  obtain ⟨serial, r1, vserial, tv2, hs1, _, h2, rfl⟩ := plain_step d m _ _ _ _ _ rfl h1
+  obtain ⟨alg, r2, valg, tv3, hs2, _, h3, rfl⟩ := plain_step d m _ _ _ _ _ rfl h2
+  obtain ⟨issuer, r3, vissuer, tv4, hs3, hri, h4, rfl⟩ := plain_step d m _ _ _ _ _ rfl h3
+  obtain ⟨validity, r4, vval, tv5, hs4, _, h5, rfl⟩ := plain_step d m _ _ _ _ _ rfl h4
+  obtain ⟨subject, r5, vsub, tv6, hs5, hrs, h6, rfl⟩ := plain_step d m _ _ _ _ _ rfl h5
+  obtain ⟨spki, r6, vspki, tv7, hs6, hrk, _, rfl⟩ := plain_step d m _ _ _ _ _ rfl h6
+  rw [hd] at hs1 hs2 hs3 hs4 hs5 hs6
+  simp only [RawOf] at hri hrs
+  simp only [Gen.ty_publicKeyInfo, RawOf, hu] at hrk
+  obtain ⟨svs, sleft, _, rfl⟩ := hrk
+  subst hri hrs
+  refine ⟨outer, tbs, hdrO, hdrT, hro, readTLV_split _ _ _ _ hro, hfullO, ?_, ⟨after, hrt⟩, hfullT, ?_,
+    vver, r0, serial, alg, issuer, validity, subject, spki, r6, hver, ?_, ?_, ?_, ?_⟩
+  · simp [rawFields, structRaw]
   · simp [rawFields, structField, structRaw, AVal.unwrap]
-  · have : tvs.getD 3 (.bool false) = v3 := by simp [List.getD, hv3]
-    simp only [rawFields, structField, structRaw, AVal.unwrap, List.getD_cons_zero, this, hraw3, rawFull]
-  · have : tvs.getD 5 (.bool false) = v5 := by simp [List.getD, hv5]
-    simp only [rawFields, structField, structRaw, AVal.unwrap, List.getD_cons_zero, this, hraw5, rawFull]
-  · have : tvs.getD 6 (.bool false) = v6 := by simp [List.getD, hv6]
-    simp only [rawFields, structField, structRaw, AVal.unwrap, List.getD_cons_zero, this, hv6eq, if_true]
+  · exact ⟨r1, hs1, r2, hs2, r3, hs3, r4, hs4, r5, hs5, r6, hs6, rfl⟩
+  · simp [rawFields, structField, AVal.unwrap, rawFull]
+  · simp [rawFields, structField, AVal.unwrap, rawFull]
+  · simp [rawFields, structField, AVal.unwrap, structRaw]
+
+/-- corollary for the entry point: when `ParseCertificate` gets past the trailing-data test, `Raw` is the whole input -/
+theorem raw_is_input (d : Dialect) (bs : Bytes) (v : AVal) (l : Bool)
+    (h : strictThenLax d Gen.ty_certificate bs = some (v, [], l)) : (rawFields v).raw = bs := by
+  unfold strictThenLax at h
+  cases hs : parseField d .strict Gen.ty_certificate {} bs with
+  | ok x =>
+    obtain ⟨v', r'⟩ := x
+    rw [hs] at h
+    simp only [Option.some.injEq, Prod.mk.injEq] at h
+    obtain ⟨rfl, rfl, rfl⟩ := h
+    obtain ⟨outer, _, _, _, _, hsplit, _, hraw, _⟩ := raw_slices d .strict rfl bs _ _ hs
+    rw [hraw, hsplit]; simp
+  | error e =>
+    rw [hs] at h
+    simp only [] at h
+    cases hl : parseField d .lax Gen.ty_certificate {} bs with
+    | error e' => rw [hl] at h; cases h
+    | ok x =>
+      obtain ⟨v', r'⟩ := x
+      rw [hl] at h
+      simp only [Option.some.injEq, Prod.mk.injEq] at h
+      obtain ⟨rfl, rfl, rfl⟩ := h
+      obtain ⟨outer, _, _, _, _, hsplit, _, hraw, _⟩ := raw_slices d .lax rfl bs _ _ hl
+      rw [hraw, hsplit]; simp
 
 example : (match parseField Dialect.upstream .strict Gen.ty_certificate {} (sampleCert ++ [0xAA]) with
     | .ok (c, rest) => some ((rawFields c).issuer, (rawFields c).subject, (rawFields c).tbs.length, (rawFields c).raw.length, rest)
